@@ -309,6 +309,11 @@ class Check:
             "counters": self.counters,
             "known_findings_reproduced": self.known_printed,
         }
+        if discharged == 0:
+            # schema: proof-level keys need discharged >= 1; with a broken obligation fall back to the generic counts
+            del cov["obligations"], cov["discharged"]
+            cov["obligations_total"] = obligations
+            cov["discharged_count"] = 0
         if level == "translation_validation":
             cov["programs"] = max(self.counters.get("evaluations", 0), 1)
             cov["disagreements_checked"] = self.counters.get("evaluations", 0)
